@@ -256,16 +256,16 @@ func TestVerifC06PluginHistory(t *testing.T) {
 				hinter.SetSchedulingHintState(cs, &hinter.SchedulingHintStateData{PreFilterNodes: []string{c06pNode}, Extensions: map[string]interface{}{Name: map[string]interface{}{}}})
 			}
 			if _, st := pl.PreFilter(ctx, cs, pod, nil); !st.IsSuccess() {
-				return cs, nil, "PreFilter: " + st.Message()
+				return cs, nil, "refused in PreFilter"
 			}
 			pl.PreRestoreReservation(ctx, cs, pod)
 			if len(matched)+len(unmatched) > 0 {
 				if _, st := pl.RestoreReservation(ctx, cs, pod, matched, unmatched, nodeInfo); !st.IsSuccess() {
-					return cs, nil, "RestoreReservation: " + st.Message()
+					return cs, nil, "refused in RestoreReservation"
 				}
 			}
 			if st := pl.Filter(ctx, cs, pod, nodeInfo); !st.IsSuccess() {
-				return cs, nil, "Filter: " + st.Message()
+				return cs, nil, "refused in Filter"
 			}
 			if nominated != nil {
 				nominator.AddNominatedReservation(pod, c06pNode, nominated)
@@ -273,7 +273,7 @@ func TestVerifC06PluginHistory(t *testing.T) {
 			st := pl.Reserve(ctx, cs, pod, c06pNode)
 			nominator.RemoveNominatedReservations(pod)
 			if !st.IsSuccess() {
-				return cs, nil, "Reserve: " + st.Message()
+				return cs, nil, "refused in Reserve"
 			}
 			state, _ := getPreFilterState(cs)
 			if state == nil || state.allocation == nil {
@@ -283,7 +283,7 @@ func TestVerifC06PluginHistory(t *testing.T) {
 		}
 
 		// clauses about one successful allocation; freeNUMA = what every NUMA node has free for this pod (milli)
-		judge := func(what, sigp string, pod *corev1.Pod, a *PodAllocation, wantCPUs int, refBefore map[int]int, heldBefore []map[corev1.ResourceName]int64) bool {
+		judge := func(what, sigp string, exact bool, pod *corev1.Pod, a *PodAllocation, wantCPUs int, refBefore map[int]int, heldBefore []map[corev1.ResourceName]int64) bool {
 			if wantCPUs >= 0 && a.CPUSet.Size() != wantCPUs {
 				return c.Violation(t, sigp+"wrong-count", "%s: %d CPUs requested, got %v; history=%v", what, wantCPUs, a.CPUSet, hist)
 			}
@@ -304,7 +304,7 @@ func TestVerifC06PluginHistory(t *testing.T) {
 					}
 				}
 			}
-			if len(a.NUMANodeResources) > 0 {
+			if exact && len(a.NUMANodeResources) > 0 {
 				want := pod.Spec.Containers[0].Resources.Requests
 				for _, rn := range []corev1.ResourceName{corev1.ResourceCPU, corev1.ResourceMemory} {
 					q, ok := want[rn]
@@ -356,8 +356,14 @@ func TestVerifC06PluginHistory(t *testing.T) {
 				// which reservations match this pod is decided by owner selectors: any subset
 				var matched, unmatched []*frameworkext.ReservationInfo
 				var matchedUIDs []types.UID
-				for _, uid := range reservations() {
-					if rapid.Bool().Draw(t, "matches") {
+				rsvs := reservations()
+				forceSplit := len(rsvs) >= 2 && rapid.IntRange(0, 3).Draw(t, "forceSplit") > 0 // aim at: some match, some do not
+				for i, uid := range rsvs {
+					m := rapid.Bool().Draw(t, "matches")
+					if forceSplit && i < 2 {
+						m = i == 0
+					}
+					if m {
 						matched = append(matched, live[uid].rInfo)
 						matchedUIDs = append(matchedUIDs, uid)
 					} else {
@@ -436,7 +442,10 @@ func TestVerifC06PluginHistory(t *testing.T) {
 				if len(a.NUMANodeResources) > 0 {
 					nNUMAAlloc++
 				}
-				if judge("schedule "+string(pod.UID), "plugin:", pod, a, wantCPUs, refBefore, heldBefore) {
+				// a Restricted reservation only serves the resources it holds; what the pod requests beyond them is not NUMA-allocated at
+				// all by koordinator (observed, reservation semantics, not asserted)
+				exact := nominated == nil || live[nominatedUID].policy != schedulingv1alpha1.ReservationAllocatePolicyRestricted
+				if judge("schedule "+string(pod.UID), "plugin:", exact, pod, a, wantCPUs, refBefore, heldBefore) {
 					dead = true
 					return
 				}
@@ -476,9 +485,32 @@ func TestVerifC06PluginHistory(t *testing.T) {
 				if len(free) == 0 {
 					t.Skip("no free CPU")
 				}
-				pickSet := c06Subset(t, free, "designated")
+				// what the designating component saw is consistent with the cluster: free CPUs, and (NUMA-aware node) not more CPUs on a
+				// NUMA node than it has cpu free
+				budget := make([]int64, topo.NumNodes)
+				for i := range budget {
+					budget[i] = int64(len(all))
+					if numaAware {
+						budget[i] = (capOf(corev1.ResourceCPU) - heldBefore[i][corev1.ResourceCPU]) / 1000
+					}
+				}
+				var pickSet []int
+				for _, id := range c06Subset(t, free, "designated") {
+					if nid := topo.CPUDetails[id].NodeID; budget[nid] > 0 {
+						budget[nid]--
+						pickSet = append(pickSet, id)
+					}
+				}
 				if len(pickSet) == 0 {
-					pickSet = free[:1]
+					for _, id := range free {
+						if nid := topo.CPUDetails[id].NodeID; budget[nid] > 0 {
+							pickSet = append(pickSet, id)
+							break
+						}
+					}
+				}
+				if len(pickSet) == 0 {
+					t.Skip("no NUMA node with a free CPU and cpu amount")
 				}
 				conflict := len(held) > 0 && rapid.IntRange(0, 7).Draw(t, "conflict") == 0
 				if conflict {
@@ -509,7 +541,7 @@ func TestVerifC06PluginHistory(t *testing.T) {
 					return
 				}
 				nDesignatedOK++
-				if judge("scheduleDesignated "+string(pod.UID), "plugin:designated:", pod, a, cpus.Size(), refBefore, heldBefore) {
+				if judge("scheduleDesignated "+string(pod.UID), "plugin:designated:", true, pod, a, cpus.Size(), refBefore, heldBefore) {
 					dead = true
 					return
 				}
@@ -536,8 +568,8 @@ func TestVerifC06PluginHistory(t *testing.T) {
 				}
 				cpuMilli := rapid.Int64Range(1, freeCPU).Draw(t, "milli")
 				mem := int64(-1)
-				if rapid.Bool().Draw(t, "wantMem") {
-					mem = rapid.Int64Range(0, memPerNode).Draw(t, "mem")
+				if memPerNode > 0 && rapid.Bool().Draw(t, "wantMem") {
+					mem = rapid.Int64Range(1, memPerNode).Draw(t, "mem")
 				}
 				tmpl := newPodObj(false, cpuMilli, mem, nil)
 				allocPolicy := rapid.SampledFrom([]schedulingv1alpha1.ReservationAllocatePolicy{schedulingv1alpha1.ReservationAllocatePolicyDefault,
@@ -552,7 +584,7 @@ func TestVerifC06PluginHistory(t *testing.T) {
 					nCycleRefused++
 					return
 				}
-				if judge("scheduleReservation "+string(r.UID), "plugin:", tmpl, a, -1, heldCPUs(), heldBefore) {
+				if judge("scheduleReservation "+string(r.UID), "plugin:", true, tmpl, a, -1, heldCPUs(), heldBefore) {
 					dead = true
 					return
 				}
